@@ -49,6 +49,7 @@ fn main() {
         "C06" => props::c06::run(ctx),
         "C07" => props::c07::run(ctx),
         "C08" => props::c08::run(ctx),
+        "C09" => props::c09::run(ctx),
         "C10" => props::c10::run(ctx),
         "C11" => props::c11::run(ctx),
         "C12" => props::c12::run(ctx),
@@ -81,6 +82,7 @@ fn replay_file(path: &str) -> i32 {
             "C06" => props::c06::replay(case),
             "C07" => props::c07::replay(case),
             "C08" => props::c08::replay(case),
+            "C09" => props::c09::replay(case),
             "C10" => props::c10::replay(case),
             "C11" => props::c11::replay(case),
             "C14" => props::c14::replay(case),
